@@ -4,7 +4,7 @@ from vt import detsched as ds, aosim, timersim
 ID = 'C10'
 ENGINE = 'detsched'
 TECHNIQUE = 'runtime monitoring under a deterministic cooperative scheduler with a virtual clock: the linearised queue-operation log is stamped with virtual time and compared with the ideal posting instants'
-RULE = ('a started ActiveObject with 1-4 concurrent timed sources (post_fifo/post_lifo with period in {0.01,0.05,0.1,1,2.5}, times 0..6, deferred '
+RULE = ('a started ActiveObject with 1-4 concurrent timed sources (post_fifo/post_lifo with period in {0.01,0.05,0.1,1,2.5} and, for finite sources, also 0, times 0..6, deferred '
         'True/False/default, started at different virtual instants), real timer threads run by detsched, time.sleep replaced by a virtual '
         'clock. Instantaneous-computation runs (clock advances only when nothing is runnable): every posting instant must equal t0 + k*period '
         '(k from 1 if deferred else 0), the count at a horizon not on a period boundary must equal min(times, instants before the horizon) '
@@ -13,7 +13,7 @@ RULE = ('a started ActiveObject with 1-4 concurrent timed sources (post_fifo/pos
         'distinct_nontrivial = distinct (time model, sorted source parameters) tuples')
 CASES = {'quick': 1500, 'thorough': 60000}
 BUDGET = {'quick': 50, 'thorough': 300}
-REQUIRE = {'runs': 600, 'postings_checked': 3000, 'sources_nondeferred': 200, 'sources_infinite': 100, 'sources_lifo': 200, 'early_advance_runs': 100}
+REQUIRE = {'runs': 600, 'postings_checked': 3000, 'sources_nondeferred': 200, 'sources_infinite': 100, 'sources_lifo': 200, 'early_advance_runs': 100, 'sources_with_zero_period': 100}
 ASSUME = ['no cancellation or stop in these runs (C11, C12)', 'virtual time: wall-clock drift of real sleeps is outside the statement']
 ANNOUNCE_CASES = True
 
@@ -21,7 +21,7 @@ ANNOUNCE_CASES = True
 def run_case(ctx, n):
   rng = ctx.rng('case', n)
   early = rng.random() < 0.25
-  sources = timersim.gen_sources(rng, allow_infinite=not early)
+  sources = timersim.gen_sources(rng, allow_infinite=not early, zero_period=True)
   horizon = rng.choice([0.3777, 1.2345, 3.7789, 7.9133, 13.3337])
   pol = aosim.policy_for(rng, est_len=1500, fair_suffix=False)
   s = ds.Sched(seed=rng.randrange(1 << 30), max_steps=3000000, p_time=0.05 if early else 0.0, horizon=1e9, **pol)
@@ -71,6 +71,8 @@ def run_case(ctx, n):
         ctx.count('sources_infinite')
       if src['kind'] == 'lifo':
         ctx.count('sources_lifo')
+      if src['period'] == 0:
+        ctx.count('sources_with_zero_period')
       want_op = 'append' if src['kind'] == 'fifo' else 'appendleft'
       wrong = [p for p in mine if p[1] != want_op]
       if wrong:
